@@ -4,8 +4,40 @@ S = "codelimit.common.Scanner:"
 
 
 def install(reg):
-    reg.contract("codelimit.common.lexer_utils:lex", params={"lexer": "ext:Lexer", "code": "str", "filter_comments": "bool"},
-                 returns="list[Token]", fresh_result=True, pure=True, note="summary used by callers; verified in C16")
+    POS = ("forall(0, {n}, lambda j: nl_before(indices, tokens[j].location.line - 1, lexer_tokens[j][0]) and "
+           "tokens[j].location.column == col_of(indices, tokens[j].location.line - 1, lexer_tokens[j][0]) and "
+           "tokens[j].value == lexer_tokens[j][2] and tokens[j].token_type is lexer_tokens[j][1])")
+    reg.contract(
+        "codelimit.common.lexer_utils:lex", params={"lexer": "ext:Lexer", "code": "str", "filter_comments": "bool"},
+        returns="list[Token]", fresh_result=True, pure=True, tolerate_unsupported=True,
+        locals={"tokens": "list[Token]"},
+        loops={
+            0: dict(fingerprint="t in lexer_tokens", invariant={
+                "ni_range": "0 <= newline_index <= len(indices)",
+                "line_start": "line_start == (0 if newline_index == 0 else indices[newline_index - 1] + 1)",
+                "one_token_per_lexer_token": "len(tokens) == i",
+                "behind": "newline_index == 0 or (i > 0 and indices[newline_index - 1] < lexer_tokens[i - 1][0])",
+                "line_of_offset": "forall(0, i, lambda j: nl_before(indices, tokens[j].location.line - 1, lexer_tokens[j][0]))",
+                "column_of_offset": "forall(0, i, lambda j: tokens[j].location.column == col_of(indices, tokens[j].location.line - 1, lexer_tokens[j][0]))",
+                "text_copied": "forall(0, i, lambda j: tokens[j].value == lexer_tokens[j][2])",
+                "type_copied": "forall(0, i, lambda j: tokens[j].token_type is lexer_tokens[j][1])",
+            }),
+            1: dict(fingerprint="newline_index < len(indices) and t[0] > indices[newline_index]", invariant={
+                "ni_range": "0 <= newline_index <= len(indices)",
+                "line_start": "line_start == (0 if newline_index == 0 else indices[newline_index - 1] + 1)",
+                "behind_this_token": "newline_index == 0 or indices[newline_index - 1] < t[0]",
+            }, decreases="len(indices) - newline_index"),
+        },
+        call_sites={"filter_tokens": {
+            "all_tokens_are_filtered": "arg0 is tokens",
+            "comments_kept_iff_requested": "arg_keep_comments == (not filter_comments) and not arg_keep_whitespace and arg_keep_others",
+            "one_token_per_lexer_token": "len(tokens) == len(lexer_tokens)",
+            "every_token_at_the_position_of_its_offset": POS.format(n="len(tokens)"),
+        }},
+        ensures={"result_is_the_filtered_list": "result is call_result('filter_tokens')"},
+        note="positions are stated on the unfiltered list at the call of filter_tokens; filter_tokens returns a subsequence",
+        props=("C16",),
+    )
     reg.contract(S + "scan_file", params={"tokens": "list[Token]", "language": "Language"}, returns="list[Measurement]",
                  fresh_result=True, note="summary used by callers; the body is verified in C05/C03")
     reg.contract(S + "generate_exclude_spec", params={"root": "ext:Path"}, returns="ext:PathSpec", pure=True)
